@@ -182,8 +182,14 @@ def sites_of(body, tnt):
                 # needs a guard against the window's length
                 ce_ = body.operand_expr(args[1])
                 sized = any(x.k == "call" and (x.q or "").split("::")[-1] in ("len", "min", "count") for x in walk(ce_))
-                # counts built from lengths / minima are the business of C09.R10; here: a number that came out of the input
-                if T.C in tnt.op_bits(body, args[1]) and not sized and name == "consume":
+                # counts built from lengths / minima / loop counters are the business of C09.R10, R11; here: a NUMBER that came out
+                # of the input - decoded from bytes, carried in the block's state, or a tag position
+                from ..mir import self_field_path as _sfp
+                explicit = any((x.k == "call" and ((x.q or "").split("::")[-1] in ("pos",) or "_bytes" in (x.q or ""))) or
+                               (x.k in ("field", "downcast") and _sfp(x)) for x in walk(ce_)) \
+                    and not any(x.k in ("multi",) or (x.k == "call" and (x.q or "").split("::")[0] not in ("std", "core", "stream", "u8", "u16", "u32", "u64", "usize")
+                                                     and "_bytes" not in (x.q or "")) for x in walk(ce_))
+                if T.C in tnt.op_bits(body, args[1]) and not sized and explicit and name == "consume":
                     yield Site(body, bb, "window:" + name, "%s(%s)" % (name, show(body.operand_expr(args[1]))),
                                (body.operand_expr(args[0]), body.operand_expr(args[1])))
             elif name in ("split_at", "split_at_mut") and q.startswith("str::") and len(args) == 2:
